@@ -147,6 +147,17 @@ def switch_on(body, bb):
     return t if t is not None and t["k"] == "switch" else None
 
 
+def is_const(term, value):
+    """the term is the constant `value`, whether written as a literal or through a named `const`"""
+    t = strip(term) if isinstance(term, tuple) else term
+    if not isinstance(t, tuple) or t[0] != "const":
+        return False
+    v = t[1]
+    if isinstance(value, bool) or isinstance(v, bool):
+        return v is value
+    return v == value
+
+
 def const_of(term):
     t = strip(term)
     if t[0] == "const":
